@@ -21,7 +21,8 @@ def run(s):
     s.undecided_part("evec_sort: that a permuted, re-phased, <= 5 %-perturbed unitary basis has the dominant-overlap structure the loop-rule obligation assumes "
                      "(A-DOM, Cauchy-Schwarz; stated, exercised by the bounded run), the dimension check in front of the loop (enumerated sizes only), the "
                      "optional filter / threshold arguments")
-    s.undecided_part("matdyn file loader: the order of the lines consumed and float() of the printed tokens are bounded only (regular expressions and column slices are discharged)")
+    s.undecided_part("matdyn file loader: float() of the printed tokens is bounded only, and matdyn's layout itself is an assumption (A-MATDYN); regular expressions, column slices and the "
+                     "order of the lines consumed (all 120 layouts of the quantifier, abstract contents) are discharged")
 
     def sym_case(N, M, tag=""):
         a = numpy.array([[Sc(z3.Real("a%s_%d_%d" % (tag, i, j))) for j in range(3 * N)] for i in range(M)], dtype=object)
